@@ -17,6 +17,20 @@ import warnings  # noqa
 warnings.filterwarnings('ignore')
 
 
+class HarnessTimeout(BaseException):
+    """the correspondence harness did not finish in time: the code under test hangs somewhere the
+    harness has no budget for (reported as a broken tie, never silently)"""
+
+
+def _watchdog(seconds):
+    import signal
+
+    def on_alarm(signum, frame):
+        raise HarnessTimeout('correspondence harness still running after %d s' % seconds)
+    signal.signal(signal.SIGALRM, on_alarm)
+    signal.alarm(seconds)
+
+
 def main():
     ap = argparse.ArgumentParser()
     ap.add_argument('pid')
@@ -45,12 +59,15 @@ def main():
                 ctx.disagree('extraction failed', repr(e), None, traceback.format_exc()[-1500:])
         audit = lib.build_and_audit(pid, getattr(mod, 'EXTRA_TARGETS', ()), getattr(mod, 'EXTRA_PROPS', ()))
         try:
+            _watchdog(3600 if tier == 'thorough' else 900)
             mod.run(ctx)
         except (lib.InfraError, KeyboardInterrupt, SystemExit):
             raise
         except BaseException as e:     # incl. simnet's Idle/Stall/ReadBudget escaping a harness
             ctx.disagree('correspondence harness could not run against this tree', repr(e),
                          None, traceback.format_exc()[-2500:])
+        import signal
+        signal.alarm(0)
         import fingerprint
         drift = fingerprint.changed(pid)
         ctx.extra['anchor_files_changed_since_validation'] = drift
@@ -61,6 +78,7 @@ def main():
             ctx.notes.append('anchor files changed (%s): correspondence and oracle re-run with thorough volumes'
                              % ', '.join(drift))
             try:
+                _watchdog(3600)
                 (getattr(mod, 'search', None) or mod.run)(ctx)
             except (lib.InfraError, KeyboardInterrupt, SystemExit):
                 raise
@@ -74,11 +92,13 @@ def main():
             ctx.notes.append('search phase entered: %s' % (
                 'theorems not checking' if audit['failed'] else 'correspondence disagreement'))
             try:
+                _watchdog(3600)
                 (getattr(mod, 'search', None) or mod.run)(ctx)
             except (lib.InfraError, KeyboardInterrupt, SystemExit):
                 raise
             except BaseException as e:
                 ctx.notes.append('search aborted: %r' % (e,))
+        signal.alarm(0)
         if ctx.thorough and not audit['failed']:
             ok, out = lib.leanchecker(pid)
             ctx.extra['leanchecker'] = 'ok' if ok else out
@@ -91,4 +111,7 @@ def main():
 
 
 if __name__ == '__main__':
-    sys.exit(main())
+    rc = main()
+    sys.stdout.flush()
+    sys.stderr.flush()
+    os._exit(rc if isinstance(rc, int) else 0)     # threads left behind by a misbehaving tree must not keep the check alive
